@@ -48,8 +48,8 @@ CHECKS_FOR = [   # first matching substring wins
     ("macro_expander", ["C13", "C19", "C17"]),
     ("capture", ["C05", "C07", "C11", "C06"]),
     ("deref", ["C06", "C03", "C05"]),
-    ("node_branch_root", ["C02", "C03", "C04", "C07"]),
-    ("mnemonic_and_operand", ["C01", "C02", "C07"]),
+    ("node_branch_root", ["C02", "C03", "C04", "C05", "C07"]),
+    ("mnemonic_and_operand", ["C01", "C02", "C05", "C07"]),
     ("time_type_builder", ["C02", "C17"]),
     ("pattern_node_builder", ["C02", "C17", "C06", "C01"]),
     ("ast_builder", ["C03", "C04", "C05", "C06", "C17"]),
